@@ -139,6 +139,10 @@ class ParallelSimulation:
             dest_eids = self._entity_sets[link.dest_partition]
             linked_from[link.source_partition].update(dest_eids)
 
+        declared: set[int] = set()
+        for eids in self._entity_sets.values():
+            declared.update(eids)
+
         for p in self._partitions:
             outbox: list[tuple[Event, Instant]] = []
             self._outboxes[p.name] = outbox
@@ -147,6 +151,7 @@ class ParallelSimulation:
                 local_entity_ids=self._entity_sets[p.name],
                 linked_entity_ids=frozenset(linked_from[p.name]),
                 outbox=outbox,
+                foreign_entity_ids=frozenset(declared - self._entity_sets[p.name]),
             )
             self._simulations[p.name]._event_router = router
 
